@@ -3,6 +3,7 @@ import groups_gen
 import groups_parse
 import groups_macro
 import groups_scan
+import groups_static
 
 
 def all_groups():
@@ -16,4 +17,5 @@ def all_groups():
     for g in gs:
         if 'C18' not in g.props and not g.name.endswith('_layout'):
             g.props = list(g.props) + ['C18']
+    gs += groups_static.groups()
     return gs
